@@ -373,6 +373,20 @@ pub fn catalogue() -> Vec<Builtin> {
         expect_eq!(cx, "l_u64_swap_get", l.to_vec(), parts.clone(), "contents after the call");
         Ok(())
     }});
+    // lists whose elements take no room, and values of enums with a plain field in front of a string
+    v.push(Builtin { name: "l_unit", src: "fn l_unit(n: u64, k: u64) -> u64 { let l: List[()] = []; let i = 0; while i < n { l.push(()); i = i + 1; } let m = l + l; (if l.contains(()) { 1 } else { 0 }) + (match l.index(()) { Some(p) => 10 + p, None => 0 }) + (if l == m { 100 } else { 0 }) + (match m.get(k) { Some(u) => 1000, None => 0 }) + m.len() * 10000 }\nenum LEv { Counted(u64, String), Named(String, u8, String), Bare }\nfn l_enum_drop(n: u64, s: String) -> u64 { let e = LEv.Counted(n, s); let f = LEv.Named(s, 7, s + s); let g = e; match g { Counted(k, t) => k + t.bytes().len(), Named(a, b, c) => 1, Bare => 2 } }", run: |cx| {
+        let n = [0u64, 1, 2, 4, 5, 9][cx.c.below(6)];
+        let k = gen_index(cx.c, 2 * n as usize);
+        let f = get!(cx, "l_unit", fn(u64, u64) -> u64);
+        cx.nontrivial = true;
+        let exp = (if n > 0 { 1 } else { 0 }) + (if n > 0 { 10 } else { 0 }) + (if n == 0 { 100 } else { 0 }) + (if k < 2 * n { 1000 } else { 0 }) + 2 * n * 10000;
+        expect_eq!(cx, "l_unit", f.call(n, k), exp, "{n}, {k}");
+        let s = gen_string(cx.c);
+        let g = get!(cx, "l_enum_drop", fn(u64, RotoString) -> u64);
+        let x = cx.c.u64() % 1000;
+        expect_eq!(cx, "l_enum_drop", g.call(x, rs(&s)), x + s.len() as u64, "{x}, {s:?}");
+        Ok(())
+    }});
     // ---------------------------------------------------------------- views
     v.push(Builtin { name: "b_bytes_len", src: "fn b_bytes_len(s: String) -> u64 { s.bytes().len() }", run: |cx| {
         let s = gen_string(cx.c);
